@@ -42,10 +42,10 @@ theorem C10_src_mcmc_logl_uses :
 /-- the proposal generators mention no log-likelihood -/
 theorem C10_src_propose_reads : Gen.Shift.proposeReadsLogl = [] := by decide
 
-/-- `Mutator.run` inspects the log-likelihoods only through `np.isinf` (and the masks derived from it) and `len`;
-    everything else is storing them -/
+/-- `Mutator.run` inspects the log-likelihoods only through `np.isinf` (the redraw test `np.all(np.isinf(logl))` and the
+    masks derived from it); everything else is storing them -/
 theorem C10_src_mutator_logl_uses :
-    Gen.Shift.mutatorLoglUses = ["len(logl)", "np.any(inf_logl_mask)", "np.isinf(logl)", "self.state.set_current('logl', logl)",
+    Gen.Shift.mutatorLoglUses = ["np.any(inf_logl_mask)", "np.isinf(logl)", "self.state.set_current('logl', logl)",
       "self.state.update_current({'u': u, 'x': x, 'logl': logl, 'blobs': blobs, 'ass...",
       "self.state.update_current({'u': u, 'x': x, 'logl': logl, 'efficiency': effici...", "~inf_logl_mask"] := by decide
 
